@@ -568,6 +568,8 @@ pub struct World {
     pub next_ctx: u64,
     pub events: u64,
     pub monitors: bool,
+    /// the scenario delivers TX timestamps itself (contexts stay in `pending_ctx`)
+    pub manual_tx_ts: bool,
     /// check after every call that the armed timers cover what each port state waits for
     /// (valid only while the host arms and fires timers exactly as requested)
     pub timer_cover: bool,
@@ -606,6 +608,7 @@ impl World {
             next_ctx: 1,
             events: 0,
             monitors: true,
+            manual_tx_ts: false,
             timer_cover: TIMER_COVER_DEFAULT.with(|c| c.get()),
             max_freq_ppm: 400.0,
             step_threshold_units: (MS) as i128,
@@ -1000,6 +1003,9 @@ impl World {
                 format!("call={cause}"),
                 format!("action set of {cause} on node {ni} port {pi} holds {} SendEvent actions", sum.event_sends),
             );
+        }
+        if self.manual_tx_ts {
+            pending = None;
         }
         if let Some((id, stamp)) = pending {
             let epoch = self.nodes[ni].epoch;
